@@ -168,3 +168,12 @@ func TestC02FileWriter(t *testing.T) {
 	col.Rule = c02Rule
 	propCheck(t, col, "c02fw", drawEncCase, runC02FileWriter)
 }
+
+func TestC02Repetitive(t *testing.T) {
+	col := stats.New("C02")
+	col.Rule = c02Rule
+	propCheck(t, col, "c02", drawRepetitiveCase, func(c encCase) (bool, []string, error) {
+		nt, labels, err := runC02(c)
+		return nt, append(labels, "repetitive"), err
+	})
+}
